@@ -141,6 +141,32 @@ def memo_obligations(ctx, clause):
                     obs.append(Ob(clause, "R-MEMO", "R-MEMO|guard-field-assigned|Shaper.%s|%s" % (meth, field), f.loc(st), assigned,
                                   "%s assigns the guarded field %s" % (call.func.attr, field) if assigned else
                                   "%s never assigns %s: the stage is launched again on every call" % (call.func.attr, field)))
+    # (c) one memo, one computation: every call site of a launch passes the same (non-verbose) arguments; a launch that is
+    #     parameterised differently from two public methods fills the shared memo with two different results
+    by_launch = {}
+    for cs in r.callsites:
+        fn = cs.node.func
+        if isinstance(fn, ast.Attribute) and fn.attr.startswith("_launch_") and is_self_attr(fn) and ctx.reachable(cs.func):
+            launch = p.funcs.get(SHAPER + fn.attr)
+            if launch is None:
+                continue
+            b = bind_args(cs.node, launch)["bound"]
+            for prm in launch.bound_params:
+                if prm == "verbose":
+                    continue
+                a = b.get(prm)
+                val = norm(a) if a is not None else ("default " + norm(launch.defaults[prm]) if prm in launch.defaults else "<missing>")
+                if a is not None and isinstance(a, ast.Name) and a.id in cs.func.params:
+                    val = "<argument of the public method>"      # covered by (a)
+                by_launch.setdefault((launch.short, prm), {}).setdefault(val, []).append(cs)
+    for (lname, prm), vals in sorted(by_launch.items()):
+        ok = len(vals) <= 1
+        cs0 = next(iter(vals.values()))[0]
+        obs.append(Ob(clause, "R-MEMO", "R-MEMO|one-memo-one-computation|%s|%s" % (lname, prm), cs0.func.loc(cs0.node), ok,
+                      "every call site launches %s with the same `%s`" % (lname, prm) if ok else
+                      "%s is launched with different `%s` (%s) by %s, but its result is memoised in one place: whichever public "
+                      "method runs first decides what the other one gets" % (
+                          lname, prm, " / ".join(sorted(vals)), ", ".join(sorted({c.func.short for v in vals.values() for c in v})))))
     return obs, n
 
 
